@@ -1,6 +1,8 @@
 import ALV.Common.Json
 import ALV.Model.C03
 import ALV.Spec.C03
+import ALV.Spec.C03Call
+import ALV.Spec.C03X
 namespace ALV.Driver.C03
 open ALV ALV.J ALV.C03
 
@@ -126,6 +128,61 @@ def getHOp (j : Json) : Except String (HOp α) := do
       | "thub" => pure (.thubRef r (← getNat (← field j "n")))
       | _ => throw s!"bad ref op {o}"
 
+def getSpell (j : Json) : Except String Arg := do
+  let t ← getStr (← field j "t")
+  match t with
+  | "omitted" => pure .omitted
+  | "none" => pure (.given .none)
+  | "int" => pure (.given (.int (← getInt (← field j "v"))))
+  | "bool" => pure (.given (.bool ((← getInt (← field j "v")) != 0)))
+  | "flt" => pure (.given (.flt (← getRat (← field j "v"))))
+  | "frac" => pure (.given (.frac (← getRat (← field j "v"))))
+  | "inf" => pure (.given .inf)
+  | "ninf" => pure (.given .ninf)
+  | "nan" => pure (.given .nan)
+  | "other" => pure (.given .other)
+  | _ => throw s!"bad spelling {t}"
+
+def getNSpell (j : Json) : Except String NSpell := do
+  let t ← getStr (← field j "t")
+  match t with
+  | "int" => pure (.int (← getInt (← field j "v")))
+  | "bool" => pure (.bool ((← getInt (← field j "v")) != 0))
+  | "flt" => pure .flt
+  | _ => throw s!"bad n {t}"
+
+def getCArg (j : Json) : Except String (CArg α) := do
+  let k ← getStr (← field j "k")
+  match k with
+  | "lst" => pure (.lst (← getList c.get (← field j "xs")))
+  | "scalar" => pure (.scalar (← c.get (← field j "v")))
+  | "obj" => pure (.obj (← getNat (← field j "j")))
+  | "endless" => pure (.endless (← getList c.get (← field j "xs")))
+  | _ => throw s!"bad argument {k}"
+
+/-- a step of a `calls` history: a call as the caller writes it (`"call"` present) or a `hist` step -/
+def getCall (j : Json) : Except String (Call α) := do
+  match optField j "call" with
+  | none => pure (.plain (← getHOp c j))
+  | some _ =>
+    let o ← getStr (← field j "op")
+    let i : Except String Nat := do getNat (← field j "i")
+    match o with
+    | "take" => pure (.take (← i) (← getSpell (← field j "a")))
+    | "peek" => pure (.peek (← i) (← getSpell (← field j "a")))
+    | "skip" => pure (.skip (← i) (← getSpell (← field j "a")))
+    | "limit" => pure (.limit (← i) (← getSpell (← field j "a")))
+    | "new" => pure (.stream (← getList (getCArg c) (← field j "args")))
+    | "append" => pure (.append (← i) (← getList (getCArg c) (← field j "args")))
+    | "thub" => pure (.thub (← getCArg c (← field j "data")) (← getNSpell (← field j "n")))
+    | "tee" =>
+      let n ← match optField j "n" with
+        | none => pure none
+        | some Json.null => pure none
+        | some x => do pure (some (← getNSpell x))
+      pure (.tee (← getCArg c (← field j "data")) n)
+    | _ => throw s!"bad call {o}"
+
 def obsJson : Option (Obs α) → Json
   | none => Json.mkObj [("hang", Json.bool true)]
   | some .unit => Json.mkObj [("self", Json.bool true)]
@@ -149,8 +206,74 @@ def histOf {α : Type} (c : Codec α) (fl : Nat) (j : Json) : Except String Json
   pure <| Json.mkObj [("model", arr (obsJson c) m.1), ("spec", arr (obsJson c) s.1),
     ("model_lists", arr (arr c.put) m.2), ("spec_lists", arr (arr c.put) s.2)]
 
+/-! raising element functions (the harness holds the same tables in Python) -/
+def mapXT (k : Nat) : Int → Ev Int :=
+  match k with
+  | 0 => fun x => if x = 0 then .error "ZeroDivisionError" else .ok (Int.fdiv 12 x)      -- 12 // x
+  | 1 => fun x => if x % 3 = 0 then .error "ValueError" else .ok (x + 1)
+  | 2 => fun x => if x = 1 then .ok 5 else if x = 2 then .ok 7 else if x = 4 then .ok 1 else .error "KeyError"
+  | 3 => fun x => .ok (2 * x)
+  | _ => fun x => if x < 0 then .error "IndexError" else .ok x
+
+def predXT (k : Nat) : Int → Ev Bool :=
+  match k with
+  | 0 => fun x => if x = 0 then .error "ZeroDivisionError" else .ok (Int.fmod 6 x == 0)  -- 6 % x == 0
+  | 1 => fun x => if x = 5 then .error "TypeError" else .ok (decide (x > 2))
+  | _ => fun x => .ok (x % 2 == 0)
+
+/-- `s.real`, `s.imag`, `s.denominator`, `s.bit_length()`, `s.nope`, `s.conjugate()`, `s()` on ints -/
+def attrXT (k : Nat) : Int → Ev Int :=
+  match k with
+  | 0 => fun x => .ok x
+  | 1 => fun _ => .ok 0
+  | 2 => fun _ => .ok 1
+  | 3 => fun x => .ok (if x = 0 then 0 else (Nat.log2 x.natAbs + 1 : Nat))
+  | 4 => fun _ => .error "AttributeError"
+  | 5 => fun x => .ok x
+  | _ => fun _ => .error "TypeError"
+
+def getEv (j : Json) : Except String (Ev Int) :=
+  match optField j "raise" with
+  | some e => do pure (.error (← getStr e))
+  | none => do pure (.ok (← getInt j))
+
+def getXOp (j : Json) : Except String (XOp Int) := do
+  let o ← getStr (← field j "op")
+  let i : Except String Nat := do getNat (← field j "i")
+  match o with
+  | "new" => pure (.new (← getList getEv (← field j "es")))
+  | "take" => pure (.take (← i) (← getCnt (← field j "n")))
+  | "peek" => pure (.peek (← i) (← getCnt (← field j "n")))
+  | "skip" => pure (.skip (← i) (← getNat (← field j "n")))
+  | "limit" => pure (.limit (← i) (← getNat (← field j "n")))
+  | "append" => pure (.append (← i) (← getList getEv (← field j "es")))
+  | "map" => pure (.map (← i) (mapXT (← getNat (← field j "f"))))
+  | "filter" => pure (.filter (← i) (predXT (← getNat (← field j "p"))))
+  | "copy" => pure (.copy (← i))
+  | "next" => pure (.next (← i))
+  | "drain" => pure (.drain (← i))
+  | "attr" => pure (.attr (← i) (attrXT (← getNat (← field j "g"))))
+  | "nextattr" => pure (.nextAttr (← i))
+  | _ => throw s!"bad xop {o}"
+
+def callsOf {α : Type} (c : Codec α) (fl : Nat) (j : Json) : Except String Json := do
+  let cs ← getList (getCall c) (← field j "ops")
+  let m := crun fl (HSt.empty : HSt α) cs
+  let s := cspecRun (⟨[], []⟩ : HSp α) cs
+  pure <| Json.mkObj [("model", arr (obsJson c) m.1), ("spec", arr (obsJson c) s.1),
+    ("model_lists", arr (arr c.put) m.2), ("spec_lists", arr (arr c.put) s.2)]
+
 def handle (entry : String) (j : Json) : Except String Json := do
   match entry with
+  | "xhist" =>
+    let ops ← getList getXOp (← field j "ops")
+    let m := xrun fuel (XSt.empty : XSt Int) ops
+    let s := xspecRun ([] : XPool Int) ops
+    pure <| Json.mkObj [("model", arr (obsJson intCodec) m), ("spec", arr (obsJson intCodec) s)]
+  | "calls" =>
+    let tagged := match optField j "tagged" with | some (Json.bool b) => b | _ => false
+    let fl := match optField j "fuel" with | some (Json.int n) => n.toNat | _ => fuel
+    if tagged then callsOf tagCodec fl j else callsOf intCodec fl j
   | "history" =>
     let ops ← getList (getOp intCodec) (← field j "ops")
     let m := run fuel (St.empty : St Int) ops
